@@ -130,7 +130,8 @@ Record ctl := Ctl {
   wcount : list (Z * Z);               (* wopStatus.ops: description -> count *)
   records : list (Z * (Z * status));   (* opRecords: region id -> (operator id, status when buried) *)
   inbox : list msg;                    (* commands on their way to the stores, oldest first *)
-  max_waiting : Z
+  max_waiting : Z;
+  unbound : list Z                     (* stores whose heartbeat stream is broken: hbstream has nothing to push a command into *)
 }.
 
 Definition alist_get {A} (l : list (Z * A)) (k : Z) : option A :=
@@ -142,14 +143,19 @@ Definition get_op (c : ctl) (id : Z) : option opr := find (fun o => o_id o =? id
 Definition put_op (l : list opr) (o : opr) : list opr := map (fun x => if o_id x =? o_id o then o else x) l.
 
 Definition upd (c : ctl) truth' cache' ops' running' waiting' wcount' records' inbox' : ctl :=
-  Ctl truth' cache' ops' running' waiting' wcount' records' inbox' (max_waiting c).
+  Ctl truth' cache' ops' running' waiting' wcount' records' inbox' (max_waiting c) (unbound c).
 Definition set_ops (c : ctl) (l : list opr) : ctl :=
   upd c (truth c) (cache c) l (running c) (waiting c) (wcount c) (records c) (inbox c).
 Definition set_op (c : ctl) (o : opr) : ctl := set_ops c (put_op (ops c) o).
 Definition set_running (c : ctl) (l : list (Z * Z)) : ctl :=
   upd c (truth c) (cache c) (ops c) l (waiting c) (wcount c) (records c) (inbox c).
+(* hbstream: a command for a store without a working stream is lost (the push fails and the stream is forgotten, or there
+   is no stream); it is never kept for later *)
 Definition send (c : ctl) (ms : list msg) : ctl :=
-  upd c (truth c) (cache c) (ops c) (running c) (waiting c) (wcount c) (records c) (inbox c ++ ms).
+  upd c (truth c) (cache c) (ops c) (running c) (waiting c) (wcount c) (records c)
+      (inbox c ++ filter (fun m => negb (existsb (Z.eqb (m_target_store m)) (unbound c))) ms).
+Definition set_unbound (c : ctl) (l : list Z) : ctl :=
+  Ctl (truth c) (cache c) (ops c) (running c) (waiting c) (wcount c) (records c) (inbox c) (max_waiting c) l.
 
 Definition wcount_of (c : ctl) (d : Z) : Z := match alist_get (wcount c) d with Some n => n | None => 0 end.
 Definition set_wcount (c : ctl) (d n : Z) : ctl :=
@@ -360,7 +366,9 @@ Inductive ev :=
 | EPoke (id : Z) (k : poke)         (* somebody holding the *Operator calls one of its exported status methods *)
 | EInfluence                        (* a scheduler calls GetOpInfluence: CheckTimeout / CheckSuccess on every running operator *)
 | EVanish (rid : Z)                 (* the region is merged away: the stores and PD's cache no longer have it *)
-| EPollGone (rid : Z).              (* PushOperators reaches the operator of a region PD no longer knows *)
+| EPollGone (rid : Z)               (* PushOperators reaches the operator of a region PD no longer knows *)
+| EBreak (st : Z)                   (* the heartbeat stream of a store breaks: pushes into it fail from now on *)
+| ERebind (st : Z).                 (* the store binds a new stream; the observation lists what the new stream receives at once *)
 
 Inductive dres := DAccepted | DStale | DRejected | DNone.
 
@@ -531,9 +539,11 @@ Definition ctl_step (c : ctl) (e : ev) : ctl * obs :=
       let c' := upd c (alist_del (truth c) rid) (alist_del (cache c) rid) (ops c) (running c) (waiting c) (wcount c) (records c) (inbox c) in
       (c', snapshot c' (-1) [] None DNone)
   | EPollGone rid => let c' := poll_gone c rid in (c', snapshot c' (-1) [] None DNone)
+  | EBreak st => let c' := set_unbound c (st :: unbound c) in (c', snapshot c' (-1) [] None DNone)
+  | ERebind st => let c' := set_unbound c (filter (fun x => negb (x =? st)) (unbound c)) in (c', snapshot c' (-1) [] None DNone)
   end.
 
-Definition init (maxw : Z) : ctl := Ctl [] [] [] [] [] [] [] [] maxw.
+Definition init (maxw : Z) : ctl := Ctl [] [] [] [] [] [] [] [] maxw [].
 
 Definition model_obs (maxw : Z) (es : list ev) : list obs := run ctl_step (init maxw) es.
 
@@ -706,6 +716,14 @@ Definition monitor_step (m : mon) (e : ev) (o : obs) : mon * option string :=
                   then None else Some "C09:command-not-stamped-with-cached-epoch-and-leader"
       | None => Some "C09:command-for-unknown-region"
       end) (b_sent o)) in
+  (* whatever a store's stream receives, at whatever moment (also right after the store bound a new stream), is a command
+     of an operator that is running at that moment (calls that add operators are judged by v_repl and v_stamp) *)
+  let v_norun :=
+    match e with
+    | EAdd _ | EAddWaiting _ | EPromote => None   (* several operators may be added and replaced within one call *)
+    | _ => first_some (map (fun x => if is_some (alist_get (b_running o) (m_rid x)) then None
+                                     else Some "C09:command-delivered-without-running-operator") (b_sent o))
+    end in
   let v_stale :=
     match e with
     | EHeartbeat rid =>
@@ -796,7 +814,7 @@ Definition monitor_step (m : mon) (e : ev) (o : obs) : mon * option string :=
         end
     | _ => None
     end in
-  (m', first_some [v_one; v_poke; v_path; v_left; v_admit; v_stamp; v_stale; v_slow; v_repl]).
+  (m', first_some [v_one; v_poke; v_path; v_left; v_admit; v_norun; v_stamp; v_stale; v_slow; v_repl]).
 
 Fixpoint monitor_run (m : mon) (es : list ev) (os : list obs) : option string :=
   match es, os with
